@@ -860,6 +860,65 @@ __CPROVER_assigns(*pivot, g_find_id, g_find_calls, g_inv_arg, g_inv_calls, g_add
                   runs=[Run(backend="kissat", timeout=600)],
                   desc="compute_pairs, one turn of the reduction of a column: no pivot -> the class is essential, (diameter, infinity) is streamed; pivot already owned by another column -> that column is added with the factor -c_pivot / c_other (checked: it cancels the pivot modulo the characteristic) and the new pivot is taken; pivot with a zero apparent facet -> that facet's coboundary is added with the negated coefficient; otherwise -> (diameter, diameter of the pivot) is streamed, the pivot is recorded for this column and the reduction column is stored"))
 
+def emergent_units(U):
+    """init_coboundary_and_get_pivot (the emergent-pair shortcut), add_simplex_coboundary and add_coboundary: what is pushed
+    where.  Enumerators, heaps, the pivot map and the apparent-facet test are ghost stubs (at most KE cofacets)."""
+    G = APP_GLUE + """
+typedef unsigned int coefficient_t;
+bool g_pivmap[KE], g_zafhas[KE];                   /* per enumerated cofacet: already a pivot / has a zero apparent facet */
+unsigned g_find_calls2, g_zaf_calls2; unsigned g_wc_push; simplex_t g_wc_ids[2 * KE]; unsigned g_wr_push; simplex_t g_wr_last; unsigned g_ce_push; unsigned g_getpivot_calls2; vp_opt g_heap_pivot;
+static bool pivmap_absent(vp_opt c) { g_find_calls2++; for (unsigned k = 0; k < KE; k++) if (k < g_ncof && g_cof[k].id == c.id) return !g_pivmap[k]; return true; }
+static bool zaf_has(vp_opt c, dimension_t d) { g_zaf_calls2++; for (unsigned k = 0; k < KE; k++) if (k < g_ncof && g_cof[k].id == c.id) return g_zafhas[k]; return false; }
+static void ce_clear(void) { g_ce_push = 0; }
+static void ce_push(vp_opt c) { g_ce_push++; }
+static void wc_push_id(simplex_t id) { if (g_wc_push < 2 * KE) g_wc_ids[g_wc_push] = id; g_wc_push++; }
+static void wr_push_id(simplex_t id) { g_wr_push++; g_wr_last = id; }
+static vp_opt get_pivot_heap(void) { g_getpivot_calls2++; return g_heap_pivot; }
+static bool ids_distinct(void) { bool ok = g_ncof <= KE; for (unsigned a = 0; a < KE; a++) for (unsigned b = 0; b < KE; b++) if (a < b && b < g_ncof && g_cof[a].id == g_cof[b].id) ok = false; for (unsigned a = 0; a < KE; a++) ok = ok && g_cof[a].diam == g_cof[a].diam; return ok; }
+"""
+    SS = [(r"std::optional<diameter_entry_t>", "vp_opt", 0), (r"const diameter_entry_t", "dentry"), (r"const dimension_t", "dimension_t")]
+    subs = [(r"!get_zero_apparent_facet\(\*(\w+), ([^()]*)\)", r"!zaf_has(\1, \2)", 0),
+            (r"\(pivot_column_index\.find\(get_entry\(\*(\w+)\)\) == pivot_column_index\.end\(\)\)", r"pivmap_absent(\1)", 0),
+            (r"cofacet_entries\.push_back\(\*(\w+)\);", r"ce_push(\1);", 0), (r"working_coboundary\.push\(\*(\w+)\);", r"wc_push_id(\1.id);", 0)] + OPT_SUBS + [(r"cofacet_entries\.clear\(\);", "ce_clear();", 0), (r"cofacets2\.set_simplex\(", "cof_set_simplex(", 0), (r"cofacets2\.next\(\)", "cof_next_raw()", 0),
+                       (r"cofacets1\.next\(\)", "cof_next_raw()", 0),
+                       (r"cofacet_entries\.push_back\(\*(\w+)\);", r"ce_push(\1);", 0),
+                       (r"\(pivot_column_index\.find\(get_entry\(\*(\w+)\)\) == pivot_column_index\.end\(\)\)", r"pivmap_absent(\1)", 0),
+                       (r"!get_zero_apparent_facet\(\*(\w+), ([^()]*)\)", r"!zaf_has(\1, \2)", 0),
+                       (r"for \(auto (\w+) : cofacet_entries\) working_coboundary\.push\(\1\);", r"for (unsigned vp_k = 0; vp_k < g_ncof; vp_k++) wc_push_id(g_cof[vp_k].id);", 0),
+                       (r"return get_pivot\(working_coboundary\);", "return get_pivot_heap();", 0),
+                       (r"working_reduction_column\.push\((\w+)\);", r"wr_push_id(\1.id);", 0), (r"working_coboundary\.push\(\*(\w+)\);", r"wc_push_id(\1.id);", 0)]
+    K = "x_first_same_cof(simplex.diam)"
+    con = f"""
+__CPROVER_requires(ids_distinct() && g_cset_calls == 0 && g_find_calls2 == 0 && g_zaf_calls2 == 0 && g_wc_push == 0 && g_getpivot_calls2 == 0 && simplex.diam == simplex.diam && dim >= 0 && dim < 100)
+__CPROVER_ensures(g_cset_calls == 1 && g_cset_id == simplex.id && g_cset_dim == dim)
+__CPROVER_ensures(!({K} < g_ncof && !g_pivmap[{K}] && !g_zafhas[{K}]) || (__CPROVER_return_value.has && __CPROVER_return_value.id == g_cof[{K}].id && g_wc_push == 0 && g_getpivot_calls2 == 0))
+__CPROVER_ensures(({K} < g_ncof && !g_pivmap[{K}] && !g_zafhas[{K}]) || (g_wc_push == g_ncof && g_getpivot_calls2 == 1 && __CPROVER_return_value.has == g_heap_pivot.has && __CPROVER_return_value.id == g_heap_pivot.id))
+__CPROVER_ensures(g_wc_push == 0 || g_wc_push == g_ncof)
+__CPROVER_assigns(g_cpos, g_fpos, g_cset_id, g_cset_dim, g_cset_calls, g_fset_id, g_fset_dim, g_fset_calls, g_find_calls2, g_zaf_calls2, g_wc_push, __CPROVER_object_whole(g_wc_ids), g_ce_push, g_getpivot_calls2)
+"""
+    fn = Fn(RP, r"std::optional<diameter_entry_t> init_coboundary_and_get_pivot\(const diameter_entry_t simplex,\s*Column& working_coboundary, const dimension_t dim,\s*entry_hash_map& pivot_column_index\)",
+            "init_coboundary_and_get_pivot", con, sig_subs=SS + [(r"\(dentry simplex,\s*Column& working_coboundary, dimension_t dim,\s*entry_hash_map& pivot_column_index\)", "(dentry simplex, dimension_t dim)")],
+            subs=subs, canary=(r"check_for_emergent_pair = false;", ";"))
+    U.append(Unit("reduction.init_coboundary_and_get_pivot", "C11", [fn], enforce="init_coboundary_and_get_pivot", globals_=G, unwind=2 * 4 + 3, route="B",
+                  bound="at most 4 cofacets per simplex; diameters, ids, pivot and apparent-facet tables symbolic", inputs=["in_s", "in_dim", "g_ncof"], replay=replay_by_native_search,
+                  runs=[Run(backend="z3", timeout=300)],
+                  harness=H("  dentry in_s; in_s.diam = nondet_float(); in_s.id = nondet_ulong(); dimension_t in_dim = (dimension_t)nondet_int();\n  g_cset_calls = 0; g_fset_calls = 0; g_find_calls2 = 0; g_zaf_calls2 = 0; g_wc_push = 0; g_getpivot_calls2 = 0; g_heap_pivot.has = nondet_int() != 0;\n"
+                            "  for (int k = 0; k < KE; k++) { g_pivmap[k] = nondet_int() != 0; g_zafhas[k] = nondet_int() != 0; }", "init_coboundary_and_get_pivot(in_s, in_dim);"),
+                  desc="init_coboundary_and_get_pivot: only the FIRST cofacet of the same diameter can form an emergent pair - it is returned at once (nothing is pushed) exactly when it is not yet a pivot and has no zero apparent facet; in every other case all cofacets go to the working coboundary and its pivot is returned"))
+    con2 = """
+__CPROVER_requires(g_ncof <= KE && g_cset_calls == 0 && g_wc_push == 0 && g_wr_push == 0)
+__CPROVER_ensures(g_wr_push == 1 && g_wr_last == simplex.id && g_cset_calls == 1 && g_cset_id == simplex.id && g_cset_dim == dim && g_wc_push == g_ncof)
+__CPROVER_ensures(g_ncof == 0 || g_wc_ids[0] == g_cof[0].id)
+__CPROVER_assigns(g_cpos, g_cset_id, g_cset_dim, g_cset_calls, g_wc_push, __CPROVER_object_whole(g_wc_ids), g_wr_push, g_wr_last)
+"""
+    fn2 = Fn(RP, r"void add_simplex_coboundary\(const diameter_entry_t simplex, const dimension_t dim,\s*Column& working_reduction_column, Column& working_coboundary\)", "add_simplex_coboundary", con2,
+             sig_subs=SS + [(r"\(dentry simplex, dimension_t dim,\s*Column& working_reduction_column, Column& working_coboundary\)", "(dentry simplex, dimension_t dim)")], subs=subs,
+             canary=(r"wr_push_id\(simplex\.id\);", ";"))
+    U.append(Unit("reduction.add_simplex_coboundary", "C11", [fn2], enforce="add_simplex_coboundary", globals_=G, unwind=4 + 3, route="B",
+                  bound="at most 4 cofacets per simplex", inputs=["in_s", "in_dim", "g_ncof"], replay=replay_by_native_search,
+                  harness=H("  dentry in_s; in_s.diam = nondet_float(); in_s.id = nondet_ulong(); dimension_t in_dim = (dimension_t)nondet_int(); g_cset_calls = 0; g_wc_push = 0; g_wr_push = 0;", "add_simplex_coboundary(in_s, in_dim);"),
+                  desc="add_simplex_coboundary: the simplex goes to the working reduction column and every cofacet its enumerator yields goes to the working coboundary"))
+
 def enumerator_units(U):
     """dense Simplex_coboundary_enumerator_::next(): filters the raw cofacets by the threshold.  next_raw (the
     enumeration itself) is a ghost stub that yields an arbitrary finite sequence of candidates."""
@@ -1126,6 +1185,7 @@ def units(tier):
     dim0_units(U)
     barcodes_units(U)
     pairs_step_units(U)
+    emergent_units(U)
     return U
 
 
